@@ -3,6 +3,7 @@ import Proofs.KeysDerCanon
 import Proofs.KeysB64
 import Proofs.KeysCanon
 import Proofs.KeysInstPub
+import Proofs.KeysDerGen
 /-!
 # C09 — keys round-trip through every serialisation and emit exact standard DER
 
@@ -227,6 +228,58 @@ theorem all_round_trips_model (c : Curve) (hc : c ∈ curveTable) (hp : c.p.Prim
     · intro fmt
       obtain ⟨bs, e1, e2⟩ := sk_from_der_to_der _ k hc hw enc henc fmt
       exact ⟨bs, e1, e2, sk_fromPem_toPem _ k enc fmt bs e1 e2 (hb64 bs)⟩
+
+/-! ### the PKCS#8 version field and the optional fields (RFC 5958 §2, RFC 5915 §3)
+
+What the library WRITES for `format="pkcs8"` is `Asn1Spec.oneAsymmetricKey` = `oneAsymmetricKeyG` at **version 1 (v2)**
+with the embedded ECPrivateKey carrying `[0] namedCurve` and `[1] publicKey` and **no** top-level optional field
+(`pkcs8_written_form`).  RFC 5958 §2 ties v2 to the presence of the top-level `publicKey [1]`; without it a conforming
+writer (OpenSSL) emits version 0.  So `sk_to_der_pkcs8_is_oneasymmetrickey` proves "canonical DER of the
+OneAsymmetricKey syntax with version 1", and the version VALUE is a deviation from the RFC's rule (reported to the
+coordinator; not a decoding problem: the loader accepts both).  What the library READS: -/
+
+/-- the written form, in the general RFC shape -/
+theorem pkcs8_written_form (d : Bytes) (curveOid : List Nat) (pt : Bytes) :
+    oneAsymmetricKey d curveOid pt =
+      oneAsymmetricKeyG 1 d curveOid [.ctx 0 (.oid curveOid), .ctx 1 (.bits 0 pt)] [] ∧
+    ecPrivateKey d curveOid pt = ecPrivateKeyG d [.ctx 0 (.oid curveOid), .ctx 1 (.bits 0 pt)] :=
+  ⟨rfl, rfl⟩
+
+/-- **PKCS#8 files written by an independent encoder**: version 0 (RFC 5958 v1, what OpenSSL writes) AND version 1,
+with any optional fields after `privateKey` (`[0] attributes`, `[1] publicKey`, …: `tail`) and any optional fields in the
+embedded ECPrivateKey (`opts`: none, `[0] parameters`, `[1] publicKey`, both) load to the same key: `from_string` of the
+left-padded scalar bytes on the curve named by the AlgorithmIdentifier -/
+theorem loads_independent_encoding_pkcs8 (E : Ext) (c : Curve) (hc : c ∈ curveTable) (v : Nat) (hv : v = 0 ∨ v = 1)
+    (d : Bytes) (opts tail : List Asn1) (hsize : (oneAsymmetricKeyG v d c.oid opts tail).enc.length < 65536) :
+    SK.fromDer E (oneAsymmetricKeyG v d c.oid opts tail).enc = SK.fromString E c (padLeft c d) ∧
+      beVal (padLeft c d) = beVal d :=
+  ⟨sk_fromDer_pkcs8_general E c hc (find_curve_table _ hc) v hv d opts tail hsize, (padLeft_spec c d).1⟩
+
+/-- in particular the version-0 and the version-1 rendering of the same key load to the same result -/
+theorem pkcs8_version_irrelevant (E : Ext) (c : Curve) (hc : c ∈ curveTable) (d : Bytes) (opts tail : List Asn1)
+    (h0 : (oneAsymmetricKeyG 0 d c.oid opts tail).enc.length < 65536)
+    (h1 : (oneAsymmetricKeyG 1 d c.oid opts tail).enc.length < 65536) :
+    SK.fromDer E (oneAsymmetricKeyG 0 d c.oid opts tail).enc = SK.fromDer E (oneAsymmetricKeyG 1 d c.oid opts tail).enc := by
+  rw [(loads_independent_encoding_pkcs8 E c hc 0 (Or.inl rfl) d opts tail h0).1,
+    (loads_independent_encoding_pkcs8 E c hc 1 (Or.inr rfl) d opts tail h1).1]
+
+/-- **bare ECPrivateKey files**: `[0] namedCurve` present (the loader needs it), anything after it — with or without
+`[1] publicKey` -/
+theorem loads_independent_encoding_ecprivatekey (E : Ext) (c : Curve) (hc : c ∈ curveTable) (d : Bytes) (rest : List Asn1)
+    (hsize : (ecPrivateKeyG d (.ctx 0 (.oid c.oid) :: rest)).enc.length < 65536) :
+    SK.fromDer E (ecPrivateKeyG d (.ctx 0 (.oid c.oid) :: rest)).enc = SK.fromString E c (padLeft c d) :=
+  sk_fromDer_ssleay_general E c hc (find_curve_table _ hc) d rest hsize
+
+/-- non-vacuity: an OpenSSL-style PKCS#8 file (version 0, embedded ECPrivateKey without parameters, with publicKey) and
+the version-1 file with a top-level `[0]` attributes field, for d = 1 on NIST P-256, both load to the key (d = 1, G) -/
+example :
+    let E : Ext := { subgroupOk := fun _ _ _ => true, sqrtModP := fun _ _ => .error .squareRoot,
+                     pubPoint := fun c _ => some (c.gx, c.gy), b64decode := fun _ => none }
+    let k : SK := ⟨curve_NIST256p, 1, ⟨curve_NIST256p, curve_NIST256p.gx, curve_NIST256p.gy⟩⟩
+    SK.fromDer E (oneAsymmetricKeyG 0 (beFixed 32 1) curve_NIST256p.oid [.ctx 1 (.bits 0 (encBytes k.vk .uncompressed))] []).enc
+      = .ok k ∧
+    SK.fromDer E (oneAsymmetricKeyG 1 (beFixed 32 1) curve_NIST256p.oid [] [.ctx 0 (.seq [])]).enc = .ok k := by
+  decide +kernel
 
 /-- the loaded scalar: `from_string` of `baselen` bytes is `from_secret_exponent` of their big-endian value -/
 theorem sk_from_string_value (E : Ext) (c : Curve) (s : Bytes) (h : s.length = c.baselen) :
